@@ -439,9 +439,12 @@ def save_scsv(file, schema, data, **kwargs):
                     if isinstance(t, bool):
                         row.append(d)
                     elif t in (float, complex):
-                        if np.isnan(d) and np.isnan(t(f)):
-                            row.append(schema["missing"])
-                        elif d == t(f):
+                        # NaN (parts) of the cell only match NaN (parts) of the fill.
+                        _d, _f = complex(d), complex(t(f))
+                        if all(
+                            x == y or (np.isnan(x) and np.isnan(y))
+                            for x, y in ((_d.real, _f.real), (_d.imag, _f.imag))
+                        ):
                             row.append(schema["missing"])
                         else:
                             row.append(d)
